@@ -32,8 +32,8 @@ log = logging.getLogger('MARKDOWN')
 # Global Vars
 META_RE = re.compile(r'^[ ]{0,3}(?P<key>[A-Za-z0-9_-]+):\s*(?P<value>.*)')
 META_MORE_RE = re.compile(r'^[ ]{4,}(?P<value>.*)')
-BEGIN_RE = re.compile(r'^-{3}(\s.*)?')
-END_RE = re.compile(r'^(-{3}|\.{3})(\s.*)?')
+BEGIN_RE = re.compile(r'^-{3}(\s.*)?$')
+END_RE = re.compile(r'^(-{3}|\.{3})(\s.*)?$')
 
 
 class MetaExtension (Extension):
@@ -56,12 +56,14 @@ class MetaPreprocessor(Preprocessor):
         """ Parse Meta-Data and store in Markdown.Meta. """
         meta: dict[str, Any] = {}
         key = None
+        began = False
         if lines and BEGIN_RE.match(lines[0]):
             lines.pop(0)
+            began = True
         while lines:
             line = lines.pop(0)
             m1 = META_RE.match(line)
-            if line.strip() == '' or END_RE.match(line):
+            if line.strip() == '' or (END_RE.match(line) and (began or key is not None)):
                 break  # blank line or end of YAML header - done
             if m1:
                 key = m1.group('key').lower().strip()
